@@ -703,3 +703,53 @@ Proof.
   destruct (thomas_dominant_float_lemma (lapT n) Hn' HF HS Bl SD (repeat 1%float n) W Hr Fr) as (x & E & Lx & Fx & _).
   exists x. split; [exact E|]. split; [exact Lx|exact Fx].
 Qed.
+
+(* ---------------------------------------------------------------- the residual form (what a numerical oracle measures) *)
+Lemma stable_to_residual (a b c xp x xn r da db dc dr E : R) :
+  (a + da) * xp + (b + db) * x + (c + dc) * xn = r + dr ->
+  Rabs da <= 3 * u64 * Rabs a -> Rabs db <= 5 * u64 * Rabs b + 9 * u64 * Rabs a -> Rabs dc <= 5 * u64 * Rabs c ->
+  Rabs dr <= E ->
+  Rabs (r - (a * xp + b * x + c * xn))
+  <= u64 * (3 * Rabs a * Rabs xp + (5 * Rabs b + 9 * Rabs a) * Rabs x + 5 * Rabs c * Rabs xn) + E.
+Proof.
+  intros Eq Ha Hb Hc Hr.
+  replace (r - (a * xp + b * x + c * xn)) with (da * xp + db * x + dc * xn + - dr) by lra.
+  eapply Rle_trans; [apply Rabs_triang|]. rewrite Rabs_Ropp.
+  eapply Rle_trans; [apply Rplus_le_compat_r, Rabs_triang|].
+  eapply Rle_trans; [apply Rplus_le_compat_r, Rplus_le_compat_r, Rabs_triang|].
+  rewrite !Rabs_mult.
+  pose proof (Rabs_pos xp). pose proof (Rabs_pos x). pose proof (Rabs_pos xn).
+  assert (Rabs da * Rabs xp <= 3 * u64 * Rabs a * Rabs xp) by (apply Rmult_le_compat_r; lra).
+  assert (Rabs db * Rabs x <= (5 * u64 * Rabs b + 9 * u64 * Rabs a) * Rabs x) by (apply Rmult_le_compat_r; lra).
+  assert (Rabs dc * Rabs xn <= 5 * u64 * Rabs c * Rabs xn) by (apply Rmult_le_compat_r; lra).
+  lra.
+Qed.
+
+(* hypotheses on the data only: the residual of the computed solution, row by row.  With |a_i| + |b_i| + |c_i| <= ||T||_inf this is
+   at most 14 u ||T||_inf ||x||_inf + 2^-1075 (1 + 11 |b_i|), u = 2^-53 *)
+Theorem thomas_dominant_float_residual_lemma (t : tridiag AF) (r : list pfloat) :
+  wfT t -> (1 <= tn t)%nat -> length r = tn t -> tri_finite t -> tri_scaled t ->
+  (forall i, (i < tn t)%nat -> bpow radix2 (-300) <= Rabs (FR (nth i (tmain t) 0%float))) ->
+  (forall i, (i < tn t)%nat ->
+     2 * (Rabs (FR (nth i (0%float :: tsub t) 0%float)) + Rabs (FR (nth i (tsup t) 0%float)))
+     <= Rabs (FR (nth i (tmain t) 0%float))) ->
+  (forall i, (i < tn t)%nat -> ffinite (nth i r 0%float) /\ Rabs (FR (nth i r 0%float)) <= bpow radix2 300) ->
+  exists x, tsolve (A := AF) t r = Ok x /\ length x = tn t /\
+    (forall i, (i < tn t)%nat -> ffinite (nth i x 0%float)) /\
+    forall i, (i < tn t)%nat ->
+      Rabs (FR (nth i r 0%float)
+            - (FR (nth i (0%float :: tsub t) 0%float) * FR (nth i (0%float :: x) 0%float)
+               + FR (nth i (tmain t) 0%float) * FR (nth i x 0%float)
+               + FR (nth i (tsup t) 0%float) * FR (nth (i + 1) x 0%float)))
+      <= u64 * (3 * Rabs (FR (nth i (0%float :: tsub t) 0%float)) * Rabs (FR (nth i (0%float :: x) 0%float))
+                + (5 * Rabs (FR (nth i (tmain t) 0%float)) + 9 * Rabs (FR (nth i (0%float :: tsub t) 0%float)))
+                  * Rabs (FR (nth i x 0%float))
+                + 5 * Rabs (FR (nth i (tsup t) 0%float)) * Rabs (FR (nth (i + 1) x 0%float)))
+         + eta64 * (1 + 11 * Rabs (FR (nth i (tmain t) 0%float))).
+Proof.
+  intros W Hn Hr HF HS Bl SD Fr.
+  destruct (thomas_dominant_float_lemma t Hn HF HS Bl SD r W Hr Fr) as (x & E & Lx & Fx & St).
+  exists x. split; [exact E|]. split; [exact Lx|]. split; [exact Fx|]. intros i Hi.
+  destruct (St i Hi) as (da & db & dc & dr & Ha & Hb & Hc & Hd & Eq).
+  exact (stable_to_residual _ _ _ _ _ _ _ da db dc dr _ Eq Ha Hb Hc Hd).
+Qed.
